@@ -196,7 +196,11 @@ class ExtGen(Gen):
         r = self.rng
         k = r.random()
         if d > 0 and k < 0.10:      # a condition used as an operand of a comparison
-            c = Gen.cond(self, d - 1)
+            for _ in range(20):
+                c = Gen.cond(self, d - 1)
+                if bool_valued(c): break
+            else:
+                c = ('cmp', '>', ('attr', 'a'), ('int', 1))
             v = self.val('bool', d - 1, True)
             op = r.choice(['==', '!=', '==', '<'])
             return ('cmp', op, v, c) if r.random() < 0.6 else ('cmp', op, c, v)
@@ -223,6 +227,14 @@ class ExtGen(Gen):
             if k < 0.14: return ('ite', self.val('int', d - 1, True), self.val('int', d - 1, True), self.val('int', d - 1))   # int test: AttributeError
             if k < 0.18: return ('ite', self.cond(d - 1, True), self.val('int', d - 1, True), self.val('bool', d - 1, True))   # mixed branches
         return Gen.val(self, ty, d, want_attr)
+
+
+def bool_valued(c):
+    """Python evaluates the condition to a bool (and/or return one of their operands: all of them must be bools)"""
+    k = c[0]
+    if k in ('and', 'or'): return bool_valued(c[1]) and bool_valued(c[2])
+    if k in ('cmp', 'in', 'like', 'not'): return True
+    return is_value(c) and static_type(c) == 'bool' and c[0] != 'ite' and never_null(c)
 
 
 def never_null(e):
